@@ -5,7 +5,7 @@
    appender contract the C29 theorems assume.  So the hypotheses are satisfiable,
    and by an instance the harness ties to the code on every run. *)
 From WK Require Import Base.Base Gen.Consts_C29 Model.ChanAppend Model.ChanAppend_C29
-     Proof.ChanAppend_coalesce Proof.ChanAppend_run.
+     Proof.ChanAppend_coalesce Proof.ChanAppend_run Proof.ChanAppend_pipeline.
 Open Scope N_scope.
 
 (* sequences are exactly 1, 2, 3, ... *)
@@ -220,8 +220,7 @@ Proof.
                          In (PRec (a_seq a) (a_id a) (ps_tag it) (ps_cmd it)) stored)
          /\ (forall i j ai aj, (i < j)%nat -> nth_error rs i = Some ai -> nth_error rs j = Some aj ->
                                a_err ai = 0 -> a_err aj = 0 -> a_seq ai < a_seq aj))
-    by (intros Hs rs Hrs; apply (plain_results (q_items q) base rs);
-        unfold stored, recs in Hrs; rewrite Hs in Hrs; exact Hrs).
+    by (intros Hs rs Hrs; unfold stored, recs in *; rewrite Hs in *; apply plain_results; exact Hrs).
   - (* FOk *)
     inversion H; subst. exists stored. cbn [ss_log]. split; [reflexivity|]. split; [exact C'|]. split; [exact Hext|].
     apply (Hplain eq_refl). auto.
@@ -266,10 +265,8 @@ Proof.
       * intros i1 i2 a1 a2 Hlt H1 H2 Z1 Z2.
         destruct (Hres i1 a1 H1 Z1) as [x1 [k1 [_ [_ [E1 [K1 N1]]]]]].
         destruct (Hres i2 a2 H2 Z2) as [x2 [k2 [_ [_ [E2 [K2 N2]]]]]].
-        subst a1 a2. cbn [a_seq].
-        destruct (i1 <? jj)%nat eqn:L1; destruct (i2 <? jj)%nat eqn:L2;
-          try apply Nat.ltb_lt in L1; try apply Nat.ltb_lt in L2;
-          try apply Nat.ltb_ge in L1; try apply Nat.ltb_ge in L2; lia.
+        subst a1 a2 k1 k2. cbn [a_seq].
+        destruct (Nat.ltb_spec i1 jj); destruct (Nat.ltb_spec i2 jj); lia.
     + inversion H; subst. exists stored. cbn [ss_log]. split; [reflexivity|]. split; [exact C'|]. split; [exact Hext|].
       apply (Hplain eq_refl). auto.
 Qed.
@@ -285,4 +282,56 @@ Proof.
     + inversion H; subst. cbn [ss_log]. split; [reflexivity|exact I].
   - inversion H; subst. cbn [ss_log]. split; [reflexivity|exact I].
   - inversion H; subst. cbn [ss_log]. split; [reflexivity|discriminate].
+Qed.
+
+(* ---- the pipeline over the strict store ------------------------------------------------------ *)
+
+Definition ss_reach (af : list afault) (lf : list lfault) (hw limit : Z) (evs : list pev) : pstate sstore :=
+  reach sstore ss_do_append ss_do_nlookup idempotencyPayloadHash logicalSendFingerprint (SS [] af lf []) hw limit evs.
+
+(* C29-K2: one batch [keyed; KEYLESS; keyed], the append commits and then reports
+   ErrAppendFailed.  The keyed siblings are recovered by lookup, the keyless item
+   misses its lookup and is appended a second time: it is stored twice and its
+   sequence (4) is above that of the later-submitted third item (3). *)
+Definition k2_events : list pev :=
+  [PSubmit [(Cmd [117; 49] [97] [112], 101, true, 0);
+            (Cmd [117; 50] [] [113], 102, true, 0);
+            (Cmd [117; 51] [99] [114], 103, true, 0)];
+   PAdvance; PRun 0; PApply 0].
+
+Definition dflt_prec : prec := PRec 0 0 0 dflt_cmd.
+
+Theorem seq_increasing_refuted :
+  let p := ss_reach [FFailAfter E_APPEND_FAILED] [] 0 1 k2_events in
+  quiescent sstore p = true /\
+  exists c1 c2, In c1 (p_delivered p) /\ In c2 (p_delivered p)
+    /\ is_fresh sstore ss_log p c1 /\ is_fresh sstore ss_log p c2
+    /\ tagof c1 < tagof c2 /\ r_seq (cp_res c2) < r_seq (cp_res c1).
+Proof.
+  intro p. split; [vm_compute; reflexivity|].
+  exists (nth 1 (p_delivered p) dflt_comp), (nth 2 (p_delivered p) dflt_comp).
+  split; [apply nth_In; vm_compute; lia|]. split; [apply nth_In; vm_compute; lia|].
+  split.
+  { split; [vm_compute; reflexivity|]. exists (nth 3 (ss_log (p_store p)) dflt_prec).
+    split; [apply nth_In; vm_compute; lia|]. split; vm_compute; reflexivity. }
+  split.
+  { split; [vm_compute; reflexivity|]. exists (nth 2 (ss_log (p_store p)) dflt_prec).
+    split; [apply nth_In; vm_compute; lia|]. split; vm_compute; reflexivity. }
+  split; vm_compute; reflexivity.
+Qed.
+
+(* the same run: the keyless send is in the log twice (same message id, two sequences) *)
+Theorem keyless_stored_twice :
+  let p := ss_reach [FFailAfter E_APPEND_FAILED] [] 0 1 k2_events in
+  map (fun r => (pr_seq r, pr_id r, pr_tag r)) (ss_log (p_store p)) = [(1, 101, 0); (2, 102, 1); (3, 103, 2); (4, 102, 1)].
+Proof. vm_compute. reflexivity. Qed.
+
+(* non-vacuity of the hypotheses of the pipeline theorems: the strict store starts
+   empty and well formed, and its ports satisfy both contracts *)
+Theorem ss_hypotheses : forall af lf,
+  ss_log (SS [] af lf []) = [] /\ contig []
+  /\ append_contract sstore ss_do_append ss_log contig
+  /\ lookup_contract sstore ss_do_nlookup idempotencyPayloadHash ss_log.
+Proof.
+  intros. split; [reflexivity|]. split; [apply contig_nil|]. split; [apply ss_append_contract|apply ss_lookup_contract].
 Qed.
